@@ -1,0 +1,43 @@
+//go:build verif
+
+// Contracts for package matlab/protocols, read by /verif/govc (comment-only file; excluded from every build without the tag "verif").
+package protocols
+
+// ---- C07: MATLAB. state_ = k means that step k is next (a stream step keeps state k until it is ended); close()
+// requires state n. Every public method first compares state_ with the ordinal of its own step, names that ordinal
+// in the error, and only a completed step moves on to ordinal + 1. -----------------------------------------------
+// The `methods` block of the abstract writer (loop 0 prints the public methods of step i).
+//@ func writeAbstractWriter$1$1$2
+//@   property C07
+//@   ensures close_requires_all_steps: emitted("if self.state_ ~= %d\n") >= 1 && emittedArg("if self.state_ ~= %d\n", 0, 0, int) == old(len(p.Sequence))
+//@   ensures a_new_writer_expects_the_first_step: emitted("self.state_ = 0;\n") == 1
+//@   iteration 0: plain_step_has_one_guard: !step.IsStream() ==> emitted("if self.state_ ~= %d\n") == 1 && emittedArg("if self.state_ ~= %d\n", 0, 0, int) == i
+//@   iteration 0: stream_step_guards_write_and_end: step.IsStream() ==> emitted("if self.state_ ~= %d\n") == 2 && emittedArg("if self.state_ ~= %d\n", 0, 0, int) == i && emittedArg("if self.state_ ~= %d\n", 1, 0, int) == i
+//@   iteration 0: error_names_this_step: emitted("self.raise_unexpected_state_(%d);\n") >= 1 && (forall k in 0..emitted("self.raise_unexpected_state_(%d);\n") :: emittedArg("self.raise_unexpected_state_(%d);\n", k, 0, int) == i)
+//@   iteration 0: a_completed_step_moves_to_the_next: emitted("self.state_ = %d;\n") == 1 && emittedArg("self.state_ = %d;\n", 0, 0, int) == i + 1
+//@   iteration 0: only_a_stream_has_an_end_method: (step.IsStream() ==> emitted("self.end_stream_();\n") == 1) && (!step.IsStream() ==> emitted("self.end_stream_();\n") == 0)
+//@   iteration 0: the_implementation_is_called: emitted("self.%s(value);\n") == 1 && emittedArg("self.%s(value);\n", 0, 0, string) == common.ProtocolWriteImplMethodName(step)
+
+// The `methods` block of the abstract reader (loop 0 prints has_<step> for streams and read_<step> of step i).
+//@ func writeAbstractReader$1$1$2
+//@   property C07
+//@   ensures close_requires_all_steps: emitted("if ~self.skip_completed_check_ && self.state_ ~= %d\n") == 1 && emittedArg("if ~self.skip_completed_check_ && self.state_ ~= %d\n", 0, 0, int) == old(len(p.Sequence))
+//@   ensures a_new_reader_expects_the_first_step: emitted("self.state_ = 0;\n") == 1
+//@   iteration 0: plain_step_has_one_guard: !step.IsStream() ==> emitted("if self.state_ ~= %d\n") == 1 && emittedArg("if self.state_ ~= %d\n", 0, 0, int) == i
+//@   iteration 0: stream_step_guards_has_more_and_read: step.IsStream() ==> emitted("if self.state_ ~= %d\n") == 2 && emittedArg("if self.state_ ~= %d\n", 0, 0, int) == i && emittedArg("if self.state_ ~= %d\n", 1, 0, int) == i
+//@   iteration 0: error_names_this_step: emitted("self.raise_unexpected_state_(%d);\n") >= 1 && (forall k in 0..emitted("self.raise_unexpected_state_(%d);\n") :: emittedArg("self.raise_unexpected_state_(%d);\n", k, 0, int) == i)
+//@   iteration 0: a_completed_step_moves_to_the_next: emitted("self.state_ = %d;\n") == 1 && emittedArg("self.state_ = %d;\n", 0, 0, int) == i + 1
+//@   iteration 0: a_stream_ends_when_nothing_is_left: step.IsStream() ==> emitted("if ~more\n") == 1 && emitted("more = self.%s();\n") == 1 && emittedArg("more = self.%s();\n", 0, 0, string) == common.ProtocolHasMoreImplMethodName(step)
+//@   iteration 0: the_implementation_is_called: emitted("value = self.%s();\n") == 1 && emittedArg("value = self.%s();\n", 0, 0, string) == common.ProtocolReadImplMethodName(step)
+
+// ---- C04 / C15: the schema a MATLAB writer puts into the stream header is the schema text of its own protocol, and
+// the reader of the protocol compares what it finds with exactly that text (it takes it from the writer class).
+//@ func writeAbstractWriter$1$1$3
+//@   property C04,C15
+//@   ensures embeds_own_schema: emitted("res = string('%s');\n") == 1 && emittedArg("res = string('%s');\n", 0, 0, string) == dsl.GetProtocolSchemaString(p, st)
+//@ func writeAbstractReader$1$1$3
+//@   property C04,C15
+//@   ensures reader_shares_writer_schema: emitted("res = %s.%s.schema;\n") == 1 && emittedArg("res = %s.%s.schema;\n", 0, 0, string) == common.NamespaceIdentifierName(ns.Name) && emittedArg("res = %s.%s.schema;\n", 0, 1, string) == common.AbstractWriterName(p)
+
+// Output and diagnostics may not depend on the iteration order of a Go map (C12): decided per `range` over a map.
+//@ map-order C12 package
